@@ -85,6 +85,7 @@ def run(ctx):
     rng = random.Random(ctx.seed)
     cfg = "CONSTANTS\n  Leaves = %s\n  MaxDepth = 2\nINIT Init\nNEXT Next\nINVARIANTS Inv_RoundTrip Inv_NoErr\nCHECK_DEADLOCK FALSE\n" % ("{1}" if quick else "{1, 2}")
     _o, mcst = ctx.tlc("Expr", cfg_text=cfg, workers=8, name="mc:Expr grammar/renderer round trip", timeout=2400)
+    ctx.tlc("MC_Big", workers=2, name="mc:Big (exact arithmetic vs TLC integers and externally computed constants)", timeout=600)
     trees = gen(ctx, "d1")
     d2 = gen(ctx, "d2")
     if quick:
